@@ -34,6 +34,9 @@ def run():
     from checks import c04
     recs = c04.record_vm(ck, wd, ['branch'], extra_args=['--np', '600' if ck.thorough else '200'])
     c04.validate_vm(ck, 'c18seq', recs['branch'], 'programs with no-op IMUL_RCP words (zero / power-of-two divisors on r0-r2) between register writers and CBRANCH: branch targets decoded by the interpreter and encoded by the x86 JIT = specification; runs = TLA+ VM')
+    # the reciprocals the SuperscalarHash programs of a cache really multiply by: the table randomx_init_cache builds
+    from checks import c09
+    c09.scripted_init(ck, wd)
     ck.cov['branch_programs_with_noop_imul_rcp'] = sum(1 for l in recs['branch'] if '"first":true' in l)
     ck.cov['divisors_checked'] = sum(1 for l in lines if l.startswith('{"e":"rcp"'))
     ck.cov['noop_words_checked'] = sum(1 for l in lines if l.startswith('{"e":"step"'))
